@@ -289,6 +289,9 @@ class Machine(object):
         self.assumed = []       # conditions assumed false because the other edge throws
         self.steps = 0
         self.trace_calls = set()
+        self.script = None      # explore_paths: decisions for branches on symbolic conditions (None = not exploring)
+        self.path = []
+        self.forks = []
         self.hooks = None       # optional object with .construct(frame, n, loc) -> bool and .call(frame, n, ...) -> None | (value,)
 
     # -- memory
@@ -354,6 +357,39 @@ class Machine(object):
     def call(self, f, this=None, args=(), depth=0):
         fr = Frame(self, f, this, depth)
         return fr.run(args)
+
+
+def explore_paths(run, max_paths=64):
+    """run(machine_setup) is called once per path: it must build a fresh Machine, call setup(machine) on it before
+    executing, execute, and return the result.  Every `if` on a symbolic condition forks.  Returns
+    [(path condition bit, result or 'throw')]; raises Unsupported beyond max_paths."""
+    out = []
+    todo = [[]]
+    while todo:
+        script = todo.pop()
+        box = {}
+
+        def setup(m, script=script):
+            m.script = list(script)
+            m.path = []
+            m.forks = []
+            box["m"] = m
+        try:
+            res = run(setup)
+        except Throw:
+            res = "throw"
+        m = box.get("m")
+        if m is None:
+            raise Unsupported("explore_paths: run() did not call setup")
+        pc = 1
+        for cv, d in m.path:
+            pc = b_and(pc, cv if d else b_not(cv))
+        out.append((pc, res))
+        for i_ in m.forks:
+            todo.append([d for _, d in m.path[:i_]] + [False])
+        if len(out) + len(todo) > max_paths:
+            raise Unsupported("more than %d paths" % max_paths)
+    return out
 
 
 class Frame(object):
@@ -515,6 +551,16 @@ class Frame(object):
                 elif e_thr and not t_thr:
                     m.assumed.append(cv)
                     self.stmt(then)
+                elif m.script is not None:
+                    # path enumeration (explore_paths): take the scripted decision, or `true` first and remember the fork
+                    i_ = len(m.path)
+                    if i_ < len(m.script):
+                        d_ = m.script[i_]
+                    else:
+                        d_ = True
+                        m.forks.append(i_)
+                    m.path.append((cv, d_))
+                    self.stmt(then if d_ else els)
                 else:
                     raise Unsupported("branch on a value that depends on the object or the argument (line %s)" % n.get("l"))
         elif k in ("ForStmt", "WhileStmt", "DoStmt"):
@@ -1129,7 +1175,19 @@ class Frame(object):
                 b_ = m.load(b_)
             av_, bv_ = (a_.value() if isinstance(a_, BV) else None), (b_.value() if isinstance(b_, BV) else None)
             if av_ is None or bv_ is None:
-                raise Unsupported("%s of values that depend on the object or the argument" % cq)
+                if not isinstance(a_, BV) or not isinstance(b_, BV):
+                    raise Unsupported("%s of non-integers" % cq)
+                # symbolic operands: select by the comparison bit (decided from the value ranges when they do not overlap)
+                ww_ = max(a_.w(), b_.w())
+                sg_ = is_signed(self.ty(argn[0]))
+                lt = self.arith("<", a_, b_, ww_, sg_, n).bits[0]
+                a2_, b2_ = a_.cast(ww_, sg_), b_.cast(ww_, sg_)
+                first, second = (a2_, b2_) if cq == "std::min" else (b2_, a2_)
+                if lt == 1:
+                    return first
+                if lt == 0:
+                    return second
+                return BV([b_mux(lt, x, y) for x, y in zip(first.bits, second.bits)])
             r_ = min(av_, bv_) if cq == "std::min" else max(av_, bv_)
             return BV.const(r_, max(a_.w(), b_.w()))
         if cq == "std::distance" and len(argn) == 2:
